@@ -161,7 +161,7 @@ def run_script(world, script: dict, x: int, variant: dict, timeout: float = 8.0)
             if died:
                 notes.append(f"server died: {died}")
 
-    finished, res = W.run_in_thread(body, timeout)
+    finished, res = W.run_in_thread(body, timeout, inline=http)
     if finished and res[0] == "exc":
         notes.append(f"harness: {res[1]!r}")
     hist = []
@@ -173,5 +173,5 @@ def run_script(world, script: dict, x: int, variant: dict, timeout: float = 8.0)
         elif e[0] == "C":
             hist.append(ev("C"))
     if not finished:
-        hist.append(ev("exc", "hang"))
+        hist.append(ev("hang"))      # no clause of C10 talks about it (liveness of the connection is C04): drift
     return {"hist": hist, "hung": not finished, "notes": notes, "prog": prog}
